@@ -126,8 +126,11 @@ CHECKS = {
        "RX1 delay (0,1 -> 1 s); DlChannelReq / NewChannelReq: any NAK bit => channel plan identical, full ACK => exactly the commanded channel change; LinkADRReq blocks: one identical "
        "answer per request, 0b111 => data rate, power and mask applied exactly (15 = keep), otherwise configuration and plan untouched, an RFU ChMaskCntl never ACKed; answers are whole "
        "commands within 15 bytes, queued in request order, and once one is dropped all later ones are dropped; sticky answers = exactly the whole DlChannelAns/RXParamSetupAns/"
-       "RXTimingSetupAns. Tied to the code by model/implementation histories enumerating the field values of the six handled requests per region (FOpts and port 0, blocks, "
-       "mixtures, sequences of downlinks) with state snapshots, and an independent oracle decoding the next two uplinks (order, copies, sticky) and checking ACK => effect / NAK => unchanged.",
+       "RXTimingSetupAns; C08_accepted_linkadr_governs_next_uplink: once an accepted LinkADRReq has set the mask, the next data uplink is chosen through that mask at the configured data "
+       "rate from EVERY region state (a fixed plan in the middle of a join-sub-band bias included). Tied to the code by model/implementation histories enumerating the field values of the "
+       "six handled requests per region (FOpts and port 0, blocks, mixtures, sequences of downlinks; fixed plans with a join bias: OTAA join, first data uplinks, LinkADRReq repeating or "
+       "changing the mask) with state snapshots, and an independent oracle decoding the next two uplinks (order, copies, sticky) and checking ACK => effect / NAK => unchanged on the snapshot "
+       "and on the data rate of the very next transmission.",
   note=COMMON_NOTE + "Regional validity (band limits, defined data rates, offset limits) in the theorems refers to the tables regenerated from /repo by tools/rs2v/regiontables.py; TX power index ranges likewise. NbTrans is not implemented by the stack and not judged.",
   tech="machine-checked proof in Coq (per-command atomicity lemmas) + translator-regenerated regional tables + exhaustive-field MAC-history correspondence + independent answer/effect oracle", ref="6 C08"),
  "C09": dict(
